@@ -26,7 +26,8 @@ CLAIMS = {
                 'function code, that every setValues is dominated by every guard and by validate(fc, same address, number of '
                 'values written), that no path writes and then answers an exception, that unknown codes yield exception 01 that every front-end maps a datastore exception to 04, and that the block validate() predicates behind the range guard accept a range iff every addressed cell exists. Boundary sweeps over concrete stores are not run.'
                 ' The server decoder owns its tables (a function registered on another server is still answered with 01).'
-                " doException() builds the exception answer from the request's own function code and ids; the RTU length oracle sizes every request up to the 256-byte ADU limit (shared with C03).",
+                " doException() builds the exception answer from the request's own function code and ids; the RTU length oracle sizes every request up to the 256-byte ADU limit (shared with C03)."
+                ' A normal answer is given only on paths that passed validate() for the addressed range.',
         'note': 'Attribute<->wire binding of guarded fields is decided by C01/C02; block range arithmetic by C18. Three genuine '
                 'defects (FC5 value word, FC15 quantity) are listed in known_findings.jsonl.',
         'technique': 'guard/dominance analysis over enumerated paths, interval + affine normal forms (static)',
@@ -38,7 +39,8 @@ CLAIMS = {
                 'request function/sub-function code, transport writes reachable only through send<-execute<-framer callback, '
                 'per-connection framer creation, processIncomingPacket call signatures, no deferred scheduling on the response path, and (datagram front-ends) the destination of every reply traced back to the source address of the datagram that carried this request, one datagram per framer call, coherent framer state between calls, and decoder.register() keeping the built-in sub-function dispatch.'
                 ' The asyncio handler is constructed with, and bound to, the server that accepted the connection; the server keeps the context object it was given.'
-                ' The threaded front-end asks the socket for at least one whole ADU per read; the RTU length oracle sizes maximum-size requests.',
+                ' The threaded front-end asks the socket for at least one whole ADU per read; the RTU length oracle sizes maximum-size requests.'
+                ' No framer decision is taken on the chunk just received (shared with C06 R5).',
         'note': 'request.execute may raise any Exception, context lookup NoSuchSlaveException; other statements non-raising. '
                 'Byte-exact output streams over request histories are not decided.',
         'technique': 'per-path effect counting over interprocedural path enumeration + who-may-call + signature conformance (static)',
@@ -68,7 +70,8 @@ CLAIMS = {
                 'with the reference (sync stream handler); any divergence in exception->response mapping, id copies, send count, context '
                 'key, should_respond gate, payload source or framer-call arguments is reported. Datagram front-ends hand the framer one datagram per call. Stream receive loops must not reset the framer on an iteration without a fault, for every reachable state of their loop-carried flags (fixpoint over the loop body). Broadcast rows are exempt (C10).'
                 ' The asyncio handler reads its server from an instance attribute bound by every constructor path to the server that created it.'
-                " The threaded front-end's read size covers an ADU like the other front-ends; a response class declared should_respond = False stays unsendable on every constructor path.",
+                " The threaded front-end's read size covers an ADU like the other front-ends; a response class declared should_respond = False stays unsendable on every constructor path."
+                ' No front-end stores anything derived from received traffic in its own attributes outside connection set-up.',
         'note': 'Decides agreement of the code summaries, not byte-identical outputs over histories or interleavings.',
         'technique': 'cross-checking sibling implementations via path summaries (static)',
     },
@@ -78,7 +81,8 @@ CLAIMS = {
                 'every path that takes a data-absence outcome (length too small / end delimiter not found) nothing is discarded, raised '
                 'or delivered afterwards; header truthiness after construction equals that after reset when code branches on it; sizing errors on partial data cannot escape; plus coherence of the state carried between calls (a cached header is reset whenever bytes are dropped from the front of the buffer, addToFrame only appends, no branch looks at the chunk just received). Eight genuine defects of the pinned tree are listed as known findings.'
                 ' A header field that holds a slice of the receive buffer is taken in the call that reads it; framers own their header per instance.'
-                ' hexlify_packets (evaluated on every reset / processing path) is total on byte strings; the RTU length oracle is a function of the frame bytes only.',
+                ' hexlify_packets (evaluated on every reset / processing path) is total on byte strings; the RTU length oracle is a function of the frame bytes only.'
+                ' After a frame for a foreign unit was skipped the frame loop goes on to the frames behind it.',
         'note': 'Only explicit length / delimiter tests classify as data absence. Equality of delivered sequences over all chunkings is not decided.',
         'technique': 'interprocedural path enumeration with effect classification (buffer shrink / delivery / raise) (static)',
     },
@@ -88,7 +92,8 @@ CLAIMS = {
                 'delivered PDU ends on the same buffer version, that the check value is read from the two bytes right after it, and that '
                 'checkCRC/checkLRC are equalities with the CRC constants 0xFFFF/0xA001.'
                 ' On TCP every registered decode() consumes exactly the buffer the MBAP length announced or bounds its reads by len(buffer) (19 known findings).'
-                ' An exception raised while a delivered frame is decoded never ends in a message handed to the callback.',
+                ' An exception raised while a delivered frame is decoded never ends in a message handed to the callback.'
+                ' The iteration in which checkFrame() fails empties the buffer or leaves it untouched; it never consumes part of the damaged frame and carries on.',
         'note': 'Error-detection power of CRC-16/LRC and the arithmetic inside computeCRC/computeLRC are outside static reach.',
         'technique': 'must-pass-through (dominance on enumerated paths) + affine slice-range comparison with versioned buffer (static)',
     },
@@ -96,7 +101,8 @@ CLAIMS = {
         'text': 'Decides progress conditions per failure kind on RTU/ASCII/binary: after a failed integrity check, after a foreign-unit '
                 'frame and when garbage precedes a start delimiter the buffer shrinks before the call returns; receive loops reset the framer or end the connection after a framer exception; the garbage skip cuts at the first start delimiter; state carried between calls stays coherent (cached header reset on every front drop, addToFrame only appends). Liveness over all futures and the two-frame bound are not decided.'
                 ' The serial client drains stale input before every request on every framing (shared with C13).'
-                ' Every class lookupPduClass can return has a frame size the RTU oracle can compute (no exception other than the caught IndexError leaves it); hexlify_packets is total, so resetFrame() always clears the buffer.',
+                ' Every class lookupPduClass can return has a frame size the RTU oracle can compute (no exception other than the caught IndexError leaves it); hexlify_packets is total, so resetFrame() always clears the buffer.'
+                ' The readiness test that gates the garbage skip of the delimiter framers is monotone under appending bytes.',
         'note': 'Necessary conditions only; RTU in-stream resynchronisation is not decided.',
         'technique': 'path enumeration + effect-after-event rules (static)',
     },
@@ -105,7 +111,8 @@ CLAIMS = {
                 '(its own id vs. a key forced from the request), whether reply transaction id / function code are ever compared '
                 'with the request, that the unit filter is request.unit_id, that the framed bytes are those received in this call, '
                 'that no reachable fallback fetches under a foreign key, that a fresh id is allocated and stale framer bytes are cleared before transmitting; a TCP read of unknown size ends only on its deadline; a first read that is not exactly min_size long raises (so the connection is closed); the bytes sent are buildPacket(request) of the same call; the TCP read returns only bytes received in that call. Two genuine defects are listed as known findings.'
-                ' ClientDecoder.decode contains whatever the reply codecs raise; client decoder tables and manager bookkeeping are per instance.',
+                ' ClientDecoder.decode contains whatever the reply codecs raise; client decoder tables and manager bookkeeping are per instance.'
+                ' An exchange that ended in a transport fault leaves no open connection behind (shared with C13); decode() of the response classes reads the spec layout (shared with C01; two known findings mirrored).',
         'note': 'Structural necessary conditions; reply contents and connection histories are not explored.',
         'technique': 'key-provenance / must-compare rule over region-scoped path enumeration (static)',
     },
@@ -115,7 +122,8 @@ CLAIMS = {
                 'against the documented options (a reply counts as the caller\'s own only under equality of unit ids), exception-flow from _recv/_send through _transact, the five framers and execute '
                 '(what can escape a client call), the clean-exit state / close-on-fault discipline, that the serial client drains stale input before every write for every framing, that a short or empty first read raises, and that the time budget of the client polling loops is fixed before the loop, that every iteration of the RTU send wait loop sets the awaited state or waits on the deadline, and that no transport method closes the socket on a normally returning path.'
                 ' ClientDecoder.decode contains every codec exception; cursor loops of the response decoders advance on every path; manager bookkeeping is per instance.'
-                ' A read of unknown length asks for at least one whole ADU; hexlify_packets and exception texts are total; what an earlier exchange left in the framer is dropped before the next request (shared with C08).',
+                ' A read of unknown length asks for at least one whole ADU; hexlify_packets and exception texts are total; what an earlier exchange left in the framer is dropped before the next request (shared with C08).'
+                ' client.connect() precedes the transmission inside every attempt (the fault handler of the previous attempt closed the transport).',
         'note': 'Wall-clock bounds of blocking transport calls and the correctness of a following transaction are not decided. '
                 'Six genuine defects are listed as known findings.',
         'technique': 'loop-variant extraction + decision-table enumeration + interprocedural exception-flow summaries (static)',
@@ -135,7 +143,8 @@ CLAIMS = {
                 'dropping of unsolicited replies, connectionLost clearing the flag before errback-ing a snapshot of all pending entries, '
                 'failed deferred when not connected, FIFO append/pop(0), and the manager selected by a test on the final framer object.'
                 ' The pending-request registry belongs to the manager instance.'
-                ' Protocol objects own their framer and registry per instance; the receive call admits every reply in a segment (one known finding: replies are filtered by the unit of the first frame).',
+                ' Protocol objects own their framer and registry per instance; the receive call admits every reply in a segment (one known finding: replies are filtered by the unit of the first frame).'
+                ' Every received chunk reaches the framer unmodified on every normally returning path of dataReceived.',
         'note': 'Deferred semantics are Twisted\'s; more than 65535 outstanding requests are out of scope. These rules are regression guards (all hold today).',
         'technique': 'dataflow / ordering rules over enumerated paths (static)',
     },
@@ -156,7 +165,8 @@ CLAIMS = {
                 'byte-count expressions, bit lists through pack_bitstring, repeats) is compared with a spec-derived layout table; the '
                 'reader summary of every decode() (offset, width, target attribute, loop start/stride/iteration count) is compared '
                 'with the same table; dispatch dataflow of both _helper functions, including that a sub-function / MEI-type class looked up in a table is tested against None and not for truthiness (sub-function 0 is valid). Message constructors must not store a mutable default argument and must keep a 0 argument of an integer field; decoder.register() must not replace an existing sub-function table; the bit-list helpers are undecorated and return freshly built lists. Five genuine defects are known findings.'
-                ' Decoder tables are owned by the decoder instance (register() on one decoder cannot change another).',
+                ' Decoder tables are owned by the decoder instance (register() on one decoder cannot change another).'
+                ' No decoder path refuses a PDU for its length alone: length guards ahead of the function-table lookup are evaluated for every legal length 1..253.',
         'note': 'pack_bitstring/unpack_bitstring arithmetic and struct are trusted; value ranges are not decided. The MEI object list is decided by C20.',
         'technique': 'abstract interpretation to wire-layout summaries compared with frozen spec tables; constant folding of decoder tables (static)',
     },
@@ -164,7 +174,8 @@ CLAIMS = {
         'text': 'Writer/reader agreement computed directly between each encode() summary and the matching decode() summary (independent '
                 'of the spec table), purity of encode (no attribute modified in place without a reset in the same call), decode not '
                 'accumulating, and losslessness of re-classing by sub-function code (no constructor-only state read after the swap; the dispatch is reached for every sub-function code, 0 included), a leading field that decode stores in an attribute is encoded from the message and not from a constant, no constructor stores a mutable default argument, and decoder.register() keeps the existing sub-function tables.'
-                ' Decoder tables are owned by the decoder instance, so registering a class elsewhere cannot change what a round trip returns.',
+                ' Decoder tables are owned by the decoder instance, so registering a class elsewhere cannot change what a round trip returns.'
+                ' The MEI object list is read as it is written (verdict of C20 R3 imported).',
         'note': 'struct trusted for value equality. Five genuine defects are known findings (four asymmetric pairs, one accumulation pinned by a test).',
         'technique': 'writer/reader layout-summary comparison + reaching-definition style purity rule (static)',
     },
